@@ -1,0 +1,41 @@
+//go:build verif
+
+package utils
+
+import "sync/atomic"
+
+// Verification-only accessors for WaterMark (excluded without -tags verif).
+// They are meant to be called by a harness while every goroutine that uses the
+// watermark is parked at a VerifYield point, hence the unlocked reads.
+
+// VerifSetWindow replaces the slot window by an empty one of the given base and
+// size, so that small indices already force rebuildWindowLocked.
+func (w *WaterMark) VerifSetWindow(base uint64, size int) {
+	w.window.Store(&watermarkWindow{base: base, slots: make([]atomic.Int32, size)})
+}
+
+// VerifSlots returns the current window's base and a copy of its slot counters.
+func (w *WaterMark) VerifSlots() (uint64, []int32) {
+	win := w.loadWindow()
+	out := make([]int32, len(win.slots))
+	for i := range win.slots {
+		out[i] = win.slots[i].Load()
+	}
+	return win.base, out
+}
+
+// VerifMuFree reports whether the watermark's mutex is currently free.
+func (w *WaterMark) VerifMuFree() bool {
+	if w.mu.TryLock() {
+		w.mu.Unlock()
+		return true
+	}
+	return false
+}
+
+// VerifWaiterPending reports whether a waiter channel for index is still
+// registered, i.e. a WaitForMark(index) parked on it would still block.
+func (w *WaterMark) VerifWaiterPending(index uint64) bool {
+	_, ok := w.waiters[index]
+	return ok
+}
